@@ -13,6 +13,7 @@ real code on Fractions (harness/corr/*), on every run.
 from __future__ import annotations
 
 import ast
+import copy
 import sys
 from pathlib import Path
 
@@ -149,7 +150,102 @@ def _is_self_attr(e: ast.expr, attr: str | None = None) -> bool:
             and (attr is None or e.attr == attr))
 
 
+class _Subst(ast.NodeTransformer):
+    """replace parameter names by argument expressions and prefix the helper's own locals"""
+    def __init__(self, mapping, rename):
+        self.mapping, self.rename = mapping, rename
+
+    def visit_Name(self, node):  # noqa: N802
+        if node.id in self.mapping:
+            return copy.deepcopy(self.mapping[node.id])
+        if node.id in self.rename:
+            return ast.copy_location(ast.Name(id=self.rename[node.id], ctx=node.ctx), node)
+        return node
+
+
+def alpha_normal(fn: ast.FunctionDef) -> str:
+    """Source of the body (docstring dropped) with parameters renamed p0, p1, … and assigned locals v0, v1, … in order
+    of first occurrence from the first compound statement on; a leading run of mutually independent simple assignments
+    is listed sorted (their order cannot matter)."""
+    params = [a.arg for a in fn.args.posonlyargs + fn.args.args + fn.args.kwonlyargs]
+    names: dict[str, str] = {p: f"p{i}" for i, p in enumerate(params)}
+    bound = set(params)
+    for n in ast.walk(fn):
+        if isinstance(n, ast.Name) and isinstance(n.ctx, ast.Store):
+            bound.add(n.id)
+
+    class R(ast.NodeTransformer):
+        def visit_Name(self, node):  # noqa: N802
+            if node.id in bound:
+                names.setdefault(node.id, f"v{len(names) - len(params)}")
+                return ast.copy_location(ast.Name(id=names[node.id], ctx=node.ctx), node)
+            return node
+    body = [x for x in fn.body if not (isinstance(x, ast.Expr) and isinstance(x.value, ast.Constant))]
+    k = 0
+    while k < len(body) and isinstance(body[k], ast.Assign) and len(body[k].targets) == 1 \
+            and isinstance(body[k].targets[0], ast.Name):
+        k += 1
+    lead, rest = body[:k], body[k:]
+    targets = {x.targets[0].id for x in lead}
+    independent = len(targets) == len(lead) and all(
+        not ({n.id for n in ast.walk(x.value) if isinstance(n, ast.Name)} & targets) for x in lead)
+    rest_src = [ast.unparse(R().visit(copy.deepcopy(x))) for x in rest]
+    lead_src = [ast.unparse(R().visit(copy.deepcopy(x))) for x in lead]
+    if independent:
+        lead_src = sorted(lead_src)
+    return "\n".join(lead_src + rest_src)
+
+
+def decision_tree(fn: ast.FunctionDef):
+    """The function as a tree of its tests (in evaluation order) with the returned expression at each leaf; straight-line
+    assignments to plain names are substituted.  Two bodies with the same tree compute the same function (the tests
+    and expressions are side-effect free: names, constants, comparisons, arithmetic, float('inf'/'nan'))."""
+    def pure(e: ast.expr) -> bool:
+        for n in ast.walk(e):
+            if isinstance(n, ast.Call) and not (isinstance(n.func, ast.Name) and n.func.id == "float"
+                                                and len(n.args) == 1 and isinstance(n.args[0], ast.Constant)):
+                return False
+            if isinstance(n, (ast.NamedExpr, ast.Await, ast.Yield, ast.YieldFrom, ast.Lambda)):
+                return False
+        return True
+
+    def leaf(e: ast.expr, env):
+        if isinstance(e, ast.IfExp):
+            return ("if", ast.unparse(_Subst(env, {}).visit(copy.deepcopy(e.test))), leaf(e.body, env), leaf(e.orelse, env))
+        e2 = _Subst(env, {}).visit(copy.deepcopy(e))
+        if isinstance(e2, ast.IfExp):
+            return leaf(e2, {})
+        if not pure(e2):
+            raise Unsupported("impure expression in a pattern-checked body")
+        return ("ret", ast.unparse(e2))
+
+    def go(stmts, env):
+        if not stmts:
+            raise Unsupported("falls off the end")
+        s, rest = stmts[0], stmts[1:]
+        if isinstance(s, ast.Expr) and isinstance(s.value, ast.Constant):
+            return go(rest, env)
+        if isinstance(s, ast.Return) and s.value is not None:
+            return leaf(s.value, env)
+        if isinstance(s, (ast.Assign, ast.AnnAssign)) and s.value is not None:
+            tg = s.targets[0] if isinstance(s, ast.Assign) and len(s.targets) == 1 else getattr(s, "target", None)
+            if not isinstance(tg, ast.Name):
+                raise Unsupported("assignment target")
+            env2 = dict(env)
+            env2[tg.id] = _Subst(env, {}).visit(copy.deepcopy(s.value))
+            return go(rest, env2)
+        if isinstance(s, ast.If):
+            test = _Subst(env, {}).visit(copy.deepcopy(s.test))
+            if not pure(test):
+                raise Unsupported("impure test")
+            return ("if", ast.unparse(test), go(list(s.body) + rest, env), go(list(s.orelse) + rest, env))
+        raise Unsupported(f"statement {type(s).__name__} in a pattern-checked body")
+    return go(list(fn.body), {})
+
+
 class Tr:
+    MODS: dict[str, ast.Module] = {}      # module ASTs of the current generation run (helper inlining)
+
     def __init__(self, key: str, sig: dict, fn: ast.FunctionDef):
         self.key, self.sig, self.fn = key, sig, fn
         self.types = dict(sig["params"])          # local name -> lean type (best effort)
@@ -324,6 +420,9 @@ class Tr:
                 return "{ " + fields + " }"
             if f.id == "Aggregates" and self.key == "aggr.Aggregates.__add__":
                 return self.aggregates_ctor(e)
+            inl = self.inline_helper(f.id, None, e)
+            if inl is not None:
+                return inl
             raise Unsupported(f"call {f.id}")
         if isinstance(f, ast.Attribute):
             dotted = self.dotted(f)
@@ -364,6 +463,9 @@ class Tr:
                     return self.call_sig(key, "self", e.args, e.keywords)
                 if f.attr in SELF_METHODS:
                     return self.call_sig(SELF_METHODS[f.attr], "self", e.args, e.keywords)
+                inl = self.inline_helper(f.attr, "self", e)
+                if inl is not None:
+                    return inl
             if f.attr in AGGR_METHODS:
                 args = e.args
                 if any(isinstance(a, ast.Starred) for a in args):   # left.cov(*cols)
@@ -418,6 +520,139 @@ class Tr:
                 return self.ex(k.value)
         raise Unsupported(f"keyword {name}")
 
+    def find_helper(self, name: str, recv: str | None) -> ast.FunctionDef | None:
+        mod = Tr.MODS.get(self.key.split(".")[0])
+        if mod is None:
+            return None
+        target = None
+        if recv is None:
+            for n in mod.body:
+                if isinstance(n, ast.FunctionDef) and n.name == name:
+                    target = n
+        else:
+            for cls in [n for n in mod.body if isinstance(n, ast.ClassDef)]:
+                if cls.name in self.key.split("."):
+                    for n in cls.body:
+                        if isinstance(n, ast.FunctionDef) and n.name == name:
+                            target = n
+        if target is None or target.decorator_list:
+            return None
+        return target
+
+    @staticmethod
+    def bind_args(target: ast.FunctionDef, recv: str | None, e: ast.Call) -> dict[str, ast.expr] | None:
+        a = target.args
+        params = [p.arg for p in a.posonlyargs + a.args]
+        if recv is not None:
+            if not params or params[0] != "self":
+                return None
+            params = params[1:]
+        kwonly = [p.arg for p in a.kwonlyargs]
+        if a.vararg or a.kwarg or a.defaults or any(d is not None for d in a.kw_defaults):
+            return None
+        if len(e.args) > len(params) or any(isinstance(x, ast.Starred) for x in e.args):
+            return None
+        mapping = dict(zip(params, e.args))
+        for kw in e.keywords:
+            if kw.arg is None or kw.arg in mapping or kw.arg not in params + kwonly:
+                return None
+            mapping[kw.arg] = kw.value
+        if set(mapping) != set(params + kwonly):
+            return None
+        return mapping
+
+    def splice_helper(self, s: ast.Assign) -> list[ast.stmt] | None:
+        """`x = helper(args)` for a private helper that is not in the signature table and whose body has branches
+        (so it cannot be inlined as an expression): its statements are spliced in — arguments bound once to fresh
+        names, its locals prefixed, its single final `return e` turned into `x = e`."""
+        f = s.value.func
+        if len(s.targets) != 1 or not isinstance(s.targets[0], ast.Name):
+            return None
+        if isinstance(f, ast.Name) and f.id not in FREE_FUNCS and f.id != "_exp":
+            name, recv = f.id, None
+        elif isinstance(f, ast.Attribute) and isinstance(f.value, ast.Name) and f.value.id == "self" \
+                and f.attr not in SELF_METHODS:
+            name, recv = f.attr, "self"
+        else:
+            return None
+        target = self.find_helper(name, recv)
+        if target is None:
+            return None
+        body = [x for x in target.body if not (isinstance(x, ast.Expr) and isinstance(x.value, ast.Constant))]
+        if not body or not isinstance(body[-1], ast.Return) or body[-1].value is None:
+            return None
+        if all(isinstance(x, ast.Assign) for x in body[:-1]):
+            return None     # simple helper: inlined as an expression by inline_helper
+        if sum(1 for x in body for n in ast.walk(x) if isinstance(n, ast.Return)) != 1:
+            return None
+        mapping = self.bind_args(target, recv, s.value)
+        if mapping is None:
+            return None
+        pre = name.strip("_")
+        stores = {n.id for x in body for n in ast.walk(x) if isinstance(n, ast.Name) and isinstance(n.ctx, ast.Store)}
+        rename = {v: f"{pre}_{v}" for v in stores | set(mapping)}
+        sub = _Subst({}, rename)
+        out: list[ast.stmt] = [ast.Assign(targets=[ast.Name(id=rename[p], ctx=ast.Store())], value=arg)
+                               for p, arg in mapping.items()]
+        out += [sub.visit(copy.deepcopy(x)) for x in body[:-1]]
+        out.append(ast.Assign(targets=[s.targets[0]], value=sub.visit(copy.deepcopy(body[-1].value))))
+        return [ast.fix_missing_locations(x) for x in out]
+
+    def inline_helper(self, name: str, recv: str | None, e: ast.Call) -> str | None:
+        """A private helper that is not in the signature table — a module-level function, or a method of the class
+        being translated — whose body is `x = …; y = …; return …` is INLINED (parameters replaced by the arguments, its
+        locals prefixed): extracting such a helper, or inlining one back, does not change the generated model's meaning."""
+        modname = self.key.split(".")[0]
+        mod = Tr.MODS.get(modname)
+        if mod is None:
+            return None
+        target = None
+        if recv is None:
+            for n in mod.body:
+                if isinstance(n, ast.FunctionDef) and n.name == name:
+                    target = n
+        else:
+            for cls in [n for n in mod.body if isinstance(n, ast.ClassDef)]:
+                if cls.name in self.key.split("."):
+                    for n in cls.body:
+                        if isinstance(n, ast.FunctionDef) and n.name == name:
+                            target = n
+        if target is None or target.decorator_list:
+            return None
+        body = [x for x in target.body if not (isinstance(x, ast.Expr) and isinstance(x.value, ast.Constant))]
+        if not body or not isinstance(body[-1], ast.Return) or body[-1].value is None:
+            return None
+        if not all(isinstance(x, ast.Assign) and len(x.targets) == 1 and isinstance(x.targets[0], ast.Name)
+                   for x in body[:-1]):
+            return None
+        a = target.args
+        params = [p.arg for p in a.posonlyargs + a.args]
+        if recv is not None:
+            if not params or params[0] != "self":
+                return None
+            params = params[1:]
+        kwonly = [p.arg for p in a.kwonlyargs]
+        if a.vararg or a.kwarg or a.defaults or any(d is not None for d in a.kw_defaults):
+            return None
+        if len(e.args) > len(params):
+            return None
+        mapping = dict(zip(params, e.args))
+        for kw in e.keywords:
+            if kw.arg is None or kw.arg in mapping or kw.arg not in params + kwonly:
+                return None
+            mapping[kw.arg] = kw.value
+        if set(mapping) != set(params + kwonly):
+            return None
+        rename = {x.targets[0].id: f"{name.strip('_')}_{x.targets[0].id}" for x in body[:-1]}
+        sub = _Subst(mapping, rename)
+        out = "("
+        for x in body[:-1]:
+            val = sub.visit(copy.deepcopy(x.value))
+            out += f"let {rename[x.targets[0].id]} := {self.ex(val)}; "
+            self.locals.add(rename[x.targets[0].id])
+        out += self.ex(sub.visit(copy.deepcopy(body[-1].value))) + ")"
+        return out
+
     def dotted(self, f: ast.expr) -> str:
         if isinstance(f, ast.Attribute):
             return self.dotted(f.value) + "." + f.attr
@@ -460,10 +695,38 @@ class Tr:
         s, rest = body[0], body[1:]
         if isinstance(s, ast.Expr) and isinstance(s.value, ast.Constant):   # docstring
             return self.stmts(rest, ind)
+        if isinstance(s, ast.Match):
+            # `match subject: case "a": … case "b": … case _: …`  ==  an if / elif / else chain on `subject == "…"`
+            chain: list[ast.stmt] | None = None
+            for case in reversed(s.cases):
+                if case.guard is not None:
+                    raise Unsupported("match guard")
+                if isinstance(case.pattern, ast.MatchAs) and case.pattern.pattern is None and case.pattern.name is None:
+                    if chain is not None:
+                        raise Unsupported("wildcard case is not last")
+                    chain = list(case.body)
+                elif isinstance(case.pattern, ast.MatchValue) and isinstance(case.pattern.value, ast.Constant):
+                    test = ast.Compare(left=copy.deepcopy(s.subject), ops=[ast.Eq()], comparators=[case.pattern.value])
+                    chain = [ast.If(test=test, body=list(case.body), orelse=chain or [])]
+                else:
+                    raise Unsupported("match pattern")
+            return self.stmts((chain or []) + rest, ind)
+        if isinstance(s, ast.AnnAssign) and s.value is not None and s.simple:
+            return self.stmts([ast.Assign(targets=[s.target], value=s.value)] + rest, ind)
         if isinstance(s, ast.Return):
             if s.value is None:
                 raise Unsupported("bare return")
             return ind + self.ex(s.value)
+        if isinstance(s, ast.If) and is_call_to(s.test, "isinstance") and len(s.body) == 1 and len(s.orelse) == 1 \
+                and all(isinstance(x, ast.Assign) and len(x.targets) == 1 and isinstance(x.targets[0], ast.Name)
+                        for x in (s.body[0], s.orelse[0])) and s.body[0].targets[0].id == s.orelse[0].targets[0].id:
+            # `if isinstance(…): x = a  else: x = b`  ==  `x = a if isinstance(…) else b`
+            return self.stmts([ast.Assign(targets=[s.body[0].targets[0]], value=ast.IfExp(
+                test=s.test, body=s.body[0].value, orelse=s.orelse[0].value))] + rest, ind)
+        if isinstance(s, ast.Assign) and isinstance(s.value, ast.Call):
+            sp = self.splice_helper(s)
+            if sp is not None:
+                return self.stmts(sp + rest, ind)
         if (isinstance(s, ast.Assign) and isinstance(s.value, ast.Call)
                 and self.dotted(s.value.func).endswith("aggregate_by_variants")):
             return f"{ind}-- {ast.unparse(s.targets[0])} = aggregate_by_variants(…): the per-variant counts are parameters\n" \
@@ -593,6 +856,10 @@ def benjamini_m_adj(mods: dict[str, ast.Module]) -> str:
            and _is_self_attr(n.targets[0], "m_adj_")]
     alpha_ok = any(isinstance(n, ast.Assign) and _is_self_attr(n.targets[0], "alpha")
                    and isinstance(n.value, ast.Name) and n.value.id == "alpha" for n in ast.walk(fn))
+    if len(tgt) != 1:
+        tgt = [n for n in ast.walk(fn) if isinstance(n, ast.AnnAssign) and n.value is not None
+               and _is_self_attr(n.target, "m_adj_")]
+        tgt = [ast.Assign(targets=[n.target], value=n.value) for n in tgt]
     if len(tgt) != 1 or not alpha_ok:
         raise Unsupported("_Benjamini.__init__ shape")
     v = tgt[0].value
@@ -620,6 +887,7 @@ def generate(src: Path, refused: dict[str, str] | None = None) -> dict[str, str]
             return None
 
     mods = {m: ast.parse((src / f).read_text()) for m, f in MODULE_SOURCE.items()}
+    Tr.MODS = mods
     out: dict[str, list[str]] = {}
     guards: dict[str, list[str]] = {}
     for m, tree in mods.items():
@@ -645,7 +913,8 @@ def generate(src: Path, refused: dict[str, str] | None = None) -> dict[str, str]
 
     def mean_extras():
         exp_fn = find(mods, "mean._exp")
-        if "\n".join(ast.unparse(x) for x in exp_fn.body) != (
+        if "\n".join(ast.unparse(x) for x in exp_fn.body
+                     if not (isinstance(x, ast.Expr) and isinstance(x.value, ast.Constant))) != (
                 "try:\n    return math.exp(x)\nexcept OverflowError:\n    return float('inf')"):
             raise Unsupported("mean._exp is not `math.exp saturating to inf`")
         return mean_ctor_map(mods)
@@ -966,9 +1235,12 @@ def generate_utils(src: Path) -> str:
     auto = ["def autoCheck (value : PyVal) (name : String) : Except PyErr PyVal := do"] + TrAuto().stmts(ac.body, "  ")
     rows, args_defs = entry_rows(mods)
     dv = find(mods, "utils.div")
-    div_src = "\n".join(ast.unparse(x) for x in dv.body if not (isinstance(x, ast.Expr) and isinstance(x.value, ast.Constant)))
-    if div_src != ("if denom != 0:\n    return numer / denom\nif fill_zero_div != 'auto':\n    return fill_zero_div\n"
-                   "return float('inf') if numer > 0 else float('nan')"):
+    exp_div = ast.parse("def div(numer, denom, fill_zero_div='auto'):\n    if denom != 0:\n        return numer / denom\n"
+                        "    if fill_zero_div != 'auto':\n        return fill_zero_div\n"
+                        "    return float('inf') if numer > 0 else float('nan')").body[0]
+    if [a.arg for a in dv.args.args] != ["numer", "denom", "fill_zero_div"] or decision_tree(dv) != decision_tree(exp_div):
+        # compared as decision trees (tests in order, returned expression per leaf): if / elif / early return /
+        # a result variable / a conditional expression are the same function
         raise Unsupported("utils.div body changed")
     div_lean = (f"-- utils.div, fill_zero_div = \"auto\"; `quot` is what `numer / denom` evaluates to\n"
                 "def divAuto (numer denom quot : XR) : XR :=\n"
@@ -1019,9 +1291,20 @@ def generate_config(src: Path) -> str:
                      and n.left.id == "value" for n in ast.walk(sc))
     if not skips_none:
         raise Unsupported("set_config: `value is not None` filter not found")
+    # … or a loop that validates into a LOCAL dict which the final `_global_config.update(<that dict>)` writes
+    loop_validates_local = False
+    if final_update and len(body[-1].value.args) == 1 and isinstance(body[-1].value.args[0], ast.Name):
+        written = body[-1].value.args[0].id
+        for n in ast.walk(sc):
+            if isinstance(n, ast.For):
+                for m in ast.walk(n):
+                    if isinstance(m, ast.Assign) and len(m.targets) == 1 and isinstance(m.targets[0], ast.Subscript) \
+                            and isinstance(m.targets[0].value, ast.Name) and m.targets[0].value.id == written \
+                            and is_call_to(m.value, "auto_check"):
+                        loop_validates_local = True
     if writes_in_loop and not comp_validates:
         validate_first = False
-    elif comp_validates and final_update and not writes_in_loop:
+    elif (comp_validates or loop_validates_local) and final_update and not writes_in_loop:
         validate_first = True
     else:
         raise Unsupported("set_config: unrecognised structure")
@@ -1179,8 +1462,9 @@ def generate_solve(src: Path) -> str:
     exp_fb = ("b = init\ni = 0\nwhile fn(b) > 0:\n    b *= mult\n    i += 1\n    if i == MAX_ITER:\n"
               "        raise RuntimeError('Cannot find parameter boundaries. Maximum number of iterations is reached.')\n"
               "return b")
-    body_src = "\n".join(ast.unparse(x) for x in fb.body)
-    if body_src != exp_fb:
+    exp_fn = ast.parse("def _find_boundary(fn, init, mult=2):\n" + "\n".join("    " + ln for ln in exp_fb.split("\n"))).body[0]
+    if alpha_normal(fb) != alpha_normal(exp_fn) or [a.arg for a in fb.args.args] != ["fn", "init", "mult"]:
+        # compared modulo renaming of locals and reordering-free: the loop, its bound and the raise must be the same
         raise Unsupported("_find_boundary body changed")
     mult = fb.args.defaults[-1]
     if not (isinstance(mult, ast.Constant) and isinstance(mult.value, int)):
@@ -1394,6 +1678,9 @@ class TrSafe(Tr):
                     return self.call_sig("mean.RatioOfMeans._scale_and_distr@none", "self", e.args, e.keywords)
                 if f.attr in SELF_METHODS:
                     return self.call_sig(SELF_METHODS[f.attr], "self", e.args, e.keywords)
+                inl = self.inline_helper(f.attr, "self", e)
+                if inl is not None:
+                    return inl
             if f.attr in AGGR_METHODS:
                 args = e.args
                 if any(isinstance(a, ast.Starred) for a in args):
